@@ -85,6 +85,12 @@ type Session struct {
 	// in front of the proxy handler; PPMatch: the route is selected by the proxy_protocol matcher
 	PP      string `json:"pp,omitempty"`
 	PPMatch bool   `json:"pp_match,omitempty"`
+	// FirstSeg > 0: in the client-first / simultaneous orders the client's first write is this short and the rest follows
+	// 30 ms later (the matcher's prefetch then fills up in steps that are not whole chunks)
+	FirstSeg int `json:"first_seg,omitempty"`
+	// FallSub: the proxy handler is reached by falling through a subroute (matching timeout 300 ms) whose only route is
+	// decided as not matching without a read; the client pauses for 450 ms after its first segment
+	FallSub bool `json:"fall_sub,omitempty"`
 	// ResetPeer is the peer that resets in the peer-reset-mixed order
 	ResetPeer int `json:"reset_peer,omitempty"`
 }
@@ -130,6 +136,12 @@ func genSession(c *fw.Ctx, i int) *Session {
 		}
 	}
 	s.UpTLS12 = s.UpNet == "tls" && r.Intn(2) == 0
+	if r2 := fw.Rand(c.Seed, "c03firstseg", i); (s.Order == "client-first" || s.Order == "simultaneous") && s.CLen >= 12000 && r2.Intn(3) == 0 {
+		// a short first segment and a matcher that wants most of the matching buffer
+		s.FirstSeg = []int{700, 1000, 1448, 3000, 6500}[r2.Intn(5)]
+		s.Prefetch = []int{6200, 7000, 7500, 8000}[r2.Intn(4)]
+		s.Chunk = 1 << 20
+	}
 	if s.Order != "peer-reset-mixed" && r.Intn(10) == 0 {
 		// the downstream connection reaches the proxy handler wrapped by a handler whose connection type cannot
 		// half-close (throttle, tee); the upstream finishes first and the client, which knows how much to expect,
@@ -143,6 +155,9 @@ func genSession(c *fw.Ctx, i int) *Session {
 		s.PP = []string{"v1", "unknown", "v2"}[r.Intn(3)]
 		s.PPMatch = r.Intn(2) == 0
 		s.Prefetch = 0
+	}
+	if r3 := fw.Rand(c.Seed, "c03fallsub", i); s.Order == "client-first" && !s.DownTLS && s.PP == "" && s.Wrap == "" && s.CLen >= 100 && r3.Intn(6) == 0 {
+		s.FallSub, s.Prefetch, s.FirstSeg = true, 0, 1+r3.Intn(s.CLen/2)
 	}
 	if s.Order == "upstream-first" {
 		// (in the upstream-first order the client sends nothing until it has seen EOF, so no matcher may wait for its bytes)
@@ -389,6 +404,12 @@ func runSession(c *fw.Ctx, w *world, canary *oracle.Canary, s *Session) {
 			"match":  []any{map[string]any{"verif_m1": map[string]any{"id": "pf", "need": s.Prefetch, "at": at, "eq": int(C[at])}}},
 			"handle": tail}}}}
 	}
+	if s.FallSub {
+		f := false
+		handlers = append(handlers, map[string]any{"handler": "subroute", "matching_timeout": "300ms", "routes": []any{map[string]any{
+			"match":  []any{map[string]any{"verif_m2": map[string]any{"id": "never", "need": 0, "const": f}}},
+			"handle": []any{map[string]any{"handler": "verif_sink", "name": "WRONG"}}}}})
+	}
 	handlers = append(handlers, tail...)
 	route := map[string]any{"handle": handlers}
 	if s.PPMatch {
@@ -450,6 +471,14 @@ func runSession(c *fw.Ctx, w *world, canary *oracle.Canary, s *Session) {
 	}
 	switch s.Order {
 	case "client-first":
+		if s.FirstSeg > 0 && s.FirstSeg < len(W) {
+			_, _ = conn.Write(W[:s.FirstSeg])
+			if s.FallSub {
+				time.Sleep(420 * time.Millisecond)
+			}
+			time.Sleep(30 * time.Millisecond)
+			W = W[s.FirstSeg:]
+		}
 		_ = writeChunks(conn, W, s.Chunk, s.DelayUs)
 		_ = conn.(closeWriter).CloseWrite()
 		readAll()
@@ -475,6 +504,11 @@ func runSession(c *fw.Ctx, w *world, canary *oracle.Canary, s *Session) {
 	case "simultaneous", "upstream-close-early", "upstream-reset", "peer-reset-mixed":
 		done := make(chan struct{})
 		go func() { readAll(); close(done) }()
+		if s.FirstSeg > 0 && s.FirstSeg < len(W) {
+			_, _ = conn.Write(W[:s.FirstSeg])
+			time.Sleep(30 * time.Millisecond)
+			W = W[s.FirstSeg:]
+		}
 		_ = writeChunks(conn, W, s.Chunk, s.DelayUs)
 		_ = conn.(closeWriter).CloseWrite()
 		<-done
@@ -578,7 +612,7 @@ func runSession(c *fw.Ctx, w *world, canary *oracle.Canary, s *Session) {
 	nt := (s.CLen > 0 && s.ULen > 0) || !graceful
 	c.Obs("sessions_"+s.Order, 1)
 	c.Obs("bytes_relayed", int64(s.CLen*len(ups)+len(got)))
-	c.Case(fw.Hash(s.UpNet, s.UpTLS12, s.Peers, s.DownTLS, s.TLS12, s.PP, s.PPMatch, s.Prefetch, s.CLen, s.ULen, s.Order, s.Chunk, s.DelayUs > 0), nt, func() any { return s })
+	c.Case(fw.Hash(s.UpNet, s.UpTLS12, s.Peers, s.DownTLS, s.TLS12, s.PP, s.PPMatch, s.FirstSeg, s.FallSub, s.Prefetch, s.CLen, s.ULen, s.Order, s.Chunk, s.DelayUs > 0), nt, func() any { return s })
 }
 
 // interleavingOf reports whether got is an order-preserving interleaving of a and b. Both streams are PRF content
